@@ -126,9 +126,11 @@ C11_H = [
     H("c11_fields_v4_exp", "c11_sig", "quick", 600, "as c11_fields_v4 with an Experimental (100..110) subpacket, critical bit allowed", SIGN_FUNCS, "hashed area 10 bytes"),
     H("c11_fields_v6", "c11_sig", "quick", 600, "hash_signature_data + trailer, v6 (u32 hashed length)", SIGN_FUNCS, "hashed area 10 bytes"),
     H("c11_verify_v3_2", "c11_sig", "quick", 600, "v3 signature over RFC transcript (doc||type||time) accepted by verify", SIGN_FUNCS, "doc 2 bytes"),
-    H("c11_sign_data_v4_2", "c11_sig", "quick", 900, "v4 Binary|Text data signature over 2 symbolic bytes: digest handed to key == RFC 5.2.4 transcript; signed hash value = prefix", SIGN_FUNCS, "doc 2 bytes; hashed = creation time + opaque subpacket; pk octet symbolic"),
+    H("c11_sign_data_v4_2_bin", "c11_sig", "quick", 900, "v4 Binary data signature over 2 symbolic bytes: digest handed to key == RFC 5.2.4 transcript; signed hash value = prefix", SIGN_FUNCS, "doc 2 bytes, hashed area 10 bytes"),
+    H("c11_sign_data_v4_2_text", "c11_sig", "quick", 900, "v4 Text data signature over 2 symbolic bytes (canonicalised): digest handed to key == RFC 5.2.4 transcript; signed hash value = prefix", SIGN_FUNCS, "doc 2 bytes, hashed area 10 bytes"),
     H("c11_sign_data_v4_2_exp", "c11_sig", "thorough", 900, "as above, Experimental subpacket with symbolic critical bit", SIGN_FUNCS, "see desc"),
-    H("c11_sign_data_v6_2", "c11_sig", "quick", 900, "v6 salted data signature, sign side", SIGN_FUNCS, "doc 2 bytes, 16-byte salt (2 symbolic)"),
+    H("c11_sign_data_v6_2_text", "c11_sig", "quick", 900, "v6 salted Text data signature, sign side", SIGN_FUNCS, "doc 2 bytes, 16-byte salt (2 symbolic)"),
+    H("c11_sign_data_v6_2_bin", "c11_sig", "thorough", 900, "v6 salted Binary data signature, sign side", SIGN_FUNCS, "doc 2 bytes, 16-byte salt (2 symbolic)"),
     H("c11_sign_data_v4_3", "c11_sig", "thorough", 900, "v4 data signature over 3 symbolic bytes", SIGN_FUNCS, "see desc"),
     H("c11_verify_data_v4_2", "c11_sig", "quick", 900, "v4 binary data signature carrying the RFC digest is accepted by Signature::verify", SIGN_FUNCS, "see desc"),
     H("c11_verify_data_v6_2", "c11_sig", "thorough", 900, "v6 binary data signature, verify side", SIGN_FUNCS, "see desc"),
@@ -147,7 +149,7 @@ C11_H = [
     H("c11_sign_cert_v4_generic", "c11_sig", "thorough", 900, "certification sign_cert_v4_generic over user id | attribute (0xB4|0xD1 len32)", SIGN_FUNCS, "key bodies 3 bytes, id body 3 bytes"),
     H("c11_sign_cert_v4_positive", "c11_sig", "quick", 900, "certification sign_cert_v4_positive over user id | attribute (0xB4|0xD1 len32)", SIGN_FUNCS, "key bodies 3 bytes, id body 3 bytes"),
     H("c11_sign_cert_v4_revocation", "c11_sig", "thorough", 900, "certification sign_cert_v4_revocation over user id | attribute (0xB4|0xD1 len32)", SIGN_FUNCS, "key bodies 3 bytes, id body 3 bytes"),
-    H("c11_sign_cert_v6_positive", "c11_sig", "quick", 900, "certification sign_cert_v6_positive over user id | attribute (0xB4|0xD1 len32)", SIGN_FUNCS, "key bodies 3 bytes, id body 3 bytes"),
+    H("c11_sign_cert_v6_positive", "c11_sig", "thorough", 900, "certification sign_cert_v6_positive over user id | attribute (0xB4|0xD1 len32)", SIGN_FUNCS, "key bodies 3 bytes, id body 3 bytes"),
     H("c11_sign_cert_v6_persona", "c11_sig", "thorough", 900, "certification sign_cert_v6_persona over user id | attribute (0xB4|0xD1 len32)", SIGN_FUNCS, "key bodies 3 bytes, id body 3 bytes"),
     H("c11_sign_cert_v4_casual", "c11_sig", "thorough", 900, "certification sign_cert_v4_casual over user id | attribute (0xB4|0xD1 len32)", SIGN_FUNCS, "key bodies 3 bytes, id body 3 bytes"),
     H("c11_verify_cert_v4_positive", "c11_sig", "quick", 900, "certification verify_cert_v4_positive over user id | attribute (0xB4|0xD1 len32)", SIGN_FUNCS, "key bodies 3 bytes, id body 3 bytes"),
@@ -490,25 +492,42 @@ PROPS["C06"] = {
     "level_text": "Sign-side and verify-side computations are shown equal by bounded model checking of each side against the same independent "
                   "RFC 9580 reference: the digest a sign_* call hands to the key equals the reference transcript, and a signature "
                   "carrying the reference digest is accepted by the corresponding verify_* call, for every value of the symbolic fields; "
-                  "text canonicalisation on the signing side (streaming hasher) and on the verifying side (replace_newlines / "
-                  "NormalizedReader in a scaled build) each equal the same byte-at-a-time reference.",
+                  "text canonicalisation on the signing side (streaming hasher) and on the verifying side (replace_newlines) each "
+                  "equal the same byte-at-a-time reference.",
     "level_note": "Covers the low-level signature API (SignatureConfig::sign*, Signature::verify*) with ideal hash and signature primitives. "
                   "Text-mode Signature::verify end-to-end (NormalizedReader + io::copy through an 8 KiB buffer), DetachedSignature, the "
                   "cleartext framework and MessageBuilder/Message::verify are outside: Kani cannot decide them (DESIGN.md 0.6).",
     "bounds": "as C11 and C14",
     "outside": "DetachedSignature wrappers, cleartext framework (finding: see DESIGN 0.5/notes), inline-signed messages, serialise+armor+parse in between",
     "assumptions": SIG_ASSUME + PROPS["C14"]["assumptions"],
-    "harnesses": _pick("C11", {"c11_sign_data_v4_2", "c11_verify_data_v4_2", "c11_sign_data_v6_2", "c11_verify_data_v6_2", "c11_sign_key_v4", "c11_verify_key_v6",
+    "harnesses": _pick("C11", {"c11_sign_data_v4_2_bin", "c11_sign_data_v4_2_text", "c11_verify_data_v4_2", "c11_sign_data_v6_2_text", "c11_sign_data_v6_2_bin", "c11_verify_data_v6_2", "c11_sign_key_v4", "c11_verify_key_v6",
                                "c11_sign_subkey_binding_v4", "c11_verify_subkey_binding_v6", "c11_sign_primary_binding_v6", "c11_verify_primary_binding_v4",
                                "c11_sign_cert_v4_positive", "c11_verify_cert_v4_positive"},
-                       {"c11_sign_data_v6_2": "thorough", "c11_sign_primary_binding_v6": "thorough", "c11_verify_primary_binding_v4": "thorough",
+                       {"c11_sign_data_v6_2_text": "thorough", "c11_sign_data_v6_2_bin": "thorough", "c11_sign_primary_binding_v6": "thorough", "c11_verify_primary_binding_v4": "thorough",
                         "c11_sign_subkey_binding_v4": "thorough", "c11_verify_subkey_binding_v6": "thorough"})
                  + _pick("C14", {"c14_hasher_step_3", "c14_hasher_two_1_2", "c14_replace_2"}),
 }
 
+# C04 also runs the hostile-input parser harnesses of C17/C05/C10: every one of them feeds arbitrary octets to a real
+# parser and Kani reports any reachable panic (index, slice, overflow, unwrap, unreachable) as a failed check, so
+# each is at the same time a no-panic / termination verdict for that parser at that input length.
+_C04_PICKS = (_pick("C17", {"c17_header_parse_total", "c17_len_parse_total", "c17_len_parse_truncated"})
+              + _pick("C05", {"c05_subpacket_len_parse_total", "c05_s2k_other_255", "c05_s2k_salted_trunc", "c05_s2k_iterated_trunc",
+                              "c05_s2k_argon2_trunc", "c05_mpi_bits16385", "c05_mpi_bits17_trunc", "c08_usage_255"},
+                      {"c05_s2k_other_255": "thorough"})
+              + _pick("C10", {"c10_b64reader_5_4", "c10_b64reader_8_4"}))
+PROPS["C04"]["harnesses"] = PROPS["C04"]["harnesses"] + [h for h in _C04_PICKS if h["name"] not in {x["name"] for x in PROPS["C04"]["harnesses"]}]
+PROPS["C04"]["inject"] = PROPS["C04"]["inject"] + [i for i in PROPS["C17"]["inject"] + PROPS["C05"]["inject"] + PROPS["C10"]["inject"]
+                                                     if i not in PROPS["C04"]["inject"]]
+PROPS["C04"]["inject"] = list(dict.fromkeys(PROPS["C04"]["inject"]))
+PROPS["C04"]["substitutions"] = list(PROPS["C17"].get("substitutions", [])) + list(PROPS["C10"].get("substitutions", []))
+PROPS["C04"]["level_note"] += (" Besides the SEIPDv2 header harnesses, the arbitrary-octet parser harnesses of C17 (packet header/length), C05 (sub-packet length, "
+                               "S2K specifiers incl. truncated ones, MPIs incl. over-cap, locked secret-key material) and C10 (Base64Reader) are run here as "
+                               "no-panic/termination verdicts for those parsers at their stated input lengths.")
+
 # measured single-harness wall times (s) of the slow ones, used only to order a parallel run (longest first)
 COST = {
-    "c11_sign_data_v4_2": 430, "c11_sign_data_v6_2": 360, "c11_sign_key_v4": 170, "c11_sign_cert_v4_positive": 150,
+    "c11_sign_data_v4_2_text": 220, "c11_sign_data_v4_2_bin": 200, "c11_sign_data_v6_2_text": 220, "c11_sign_data_v6_2_bin": 200, "c11_sign_key_v4": 170, "c11_sign_cert_v4_positive": 150,
     "c11_sign_cert_v6_positive": 140, "c11_verify_key_v6": 110, "c11_sign_subkey_binding_v4": 85,
     "c05_s2k_other_255": 100,
 }
